@@ -302,8 +302,78 @@ def r4_finite(ctx):
     ctx.check(bool(clamps) and not raw_pow, "C08.R4", g, g.node, "survival evaluated on the clamped time", "survival raises a negative number to a fractional power (NaN)", construct="clamped survival")
 
 
+ENTRY_POINTS = {
+    "nll": {"return $0._nll($1, *$args)"},
+    "nll_jacobian": {"return $0._nll_jacobian($1, *$args)"},
+    "nll_and_jacobian": {"return $0._nll_and_jacobian($1, *$args)"},
+    "regularization": {"if isinstance($1, Tensor); %0 = $0._nll(WeightedTensor($1), *$args); %0 = $0._nll($1, *$args); return %0",
+                       "if isinstance($1, Tensor); return $0._nll(WeightedTensor($1), *$args); return $0._nll($1, *$args)"},
+}
+
+
+def r5_entry_points(ctx):
+    """What the models call are `nll`, `regularization`, `nll_jacobian`, `nll_and_jacobian`: in the base class they hand over to the `_nll*`
+    implementations decided by R1-R3, and no family replaces them by a second formula (a 'fast path' with its own arithmetic is another
+    density for the inputs it takes)."""
+    ctx.rule("C08.R5", "the public entry points of every distribution family are the base-class dispatchers to `_nll*` (no second formula)", 4)
+    ix = ctx.ix
+    base = (DIST, "StatelessDistributionFamily")
+    if base not in ix.classes:
+        raise AnalysisError("C08.R5", "anchor vanished: StatelessDistributionFamily")
+    for name, forms in ENTRY_POINTS.items():
+        f = ix.func(DIST, f"StatelessDistributionFamily.{name}", "C08.R5")
+        text = "; ".join(Canon(f.node).lines(True, True))
+        ctx.form("C08.R5", f, f.node, text, forms, [f"$0._{'nll' if name == 'regularization' else name}("], f"{name} hands over to the family's `_nll*` implementation",
+                 f"{name} no longer hands its arguments to the `_nll*` implementation of the family", construct=f"dispatcher {name}")
+    x, loc, scale = sp.Symbol("x", real=True), sp.Symbol("loc", real=True), sp.Symbol("scale", positive=True)
+    c = sp.Symbol("c", real=True)
+    ref = sp.Rational(1, 2) * ((x - loc) / scale) ** 2 + sp.log(scale) + c
+    overrides = 0
+    for key in sorted(ix.classes):
+        if key == base or base not in ix.mro(key):
+            continue
+        for b in ix.classes[key].body:
+            if not (isinstance(b, ast.FunctionDef) and b.name in ENTRY_POINTS):
+                continue
+            overrides += 1
+            f = ix.func(key[0], f"{key[1]}.{b.name}", "C08.R5")
+            ctx.analysed(f)
+            from ..astq import Inliner
+            inl = Inliner(f.node)
+            normal = (DIST, "NormalFamily") in ix.mro(key) and b.name in ("nll", "regularization")
+            params = [a.arg for a in b.args.args]
+            for r in [s_ for s_ in statements(b) if isinstance(s_, ast.Return)]:
+                v = r.value
+                if isinstance(v, ast.Call) and isinstance(v.func, ast.Attribute) and v.func.attr == b.name and U(v.func.value) == "super()":
+                    ctx.ok("C08.R5", f, r, f"`{U(v)[:60]}`: hands over to the inherited dispatcher", construct=f"{key[1]}.{b.name}: delegation")
+                    continue
+                if not normal or len(params) < 4:
+                    ctx.unknown("C08.R5", f, r, f"`{key[1]}.{b.name}` computes a value of its own (`{U(v)[:60]}`), which is not compared with the documented density", construct=f"{key[1]}.{b.name}: own formula")
+                    continue
+                try:
+                    class N5(Normalizer):
+                        def tosym(self, e):
+                            t = U(e)
+                            if t in (params[1], params[1] + ".value"):
+                                return x
+                            if t == "cls.nll_constant_standard":
+                                return c
+                            return super().tosym(e)
+                    got = N5({params[2]: loc, params[3]: scale}, call_hook=method_inline_hook(ix, key))(inl.resolve(v))
+                    got = got.replace(F["log"], sp.log)
+                    diff = sp.simplify(sp.expand_log(sp.expand(got - ref), force=True))
+                except NFUnsupported as e:
+                    ctx.unknown("C08.R5", f, r, f"own formula outside the supported subset: {e}", construct=f"{key[1]}.{b.name}: own formula")
+                    continue
+                ctx.check(diff == 0, "C08.R5", f, r, f"own formula equal to the Gaussian negative log-density {ref}",
+                          f"`{key[1]}.{b.name}` returns a value of its own that differs from the Gaussian negative log-density by {diff} (documented: {ref})", construct=f"{key[1]}.{b.name}: own formula")
+    if not overrides:
+        ctx.ok("C08.R5", (DIST, "StatelessDistributionFamily"), None, "no distribution family overrides nll / regularization / nll_jacobian / nll_and_jacobian", construct="no override")
+
+
 def rules(ctx):
     r1_gaussian(ctx)
+    r5_entry_points(ctx)
     r2_bernoulli(ctx)
     r3_weibull(ctx)
     r4_finite(ctx)
